@@ -127,11 +127,6 @@ pub fn observe(c: &Case) -> Result<Obs, String> {
     }
   })?;
   let eps = t0.elapsed().as_nanos() as u64 + 1_000_000;
-  if std::env::var_os("RXV_DEBUG").is_some() {
-    for e in &out.evs {
-      eprintln!("{:?}", e);
-    }
-  }
   // emission instants of hot items: the vt of the "act" mark that injected them
   let mut emit_at = vec![];
   for e in &out.evs {
